@@ -428,3 +428,83 @@ example : let c : Cfg := { nbits := 16, es := 5, bt := 16, sub := true }
     (((0x3fb999999999999a >>> 52) % 2 ^ 11 : Nat) : Int) - 1023 + c.bias + 1 < c.emax ∧
     fromIeee c 11 52 ieeeF64_qnanmask ieeeF64_snanmask 0x3fb999999999999a = 0x2e66 := by
   decide +kernel
+
+/-! ### long double sources (x86-64 80-bit; transcript pattern sign | 15 | 63) — `fromLD` -/
+
+/-- the full statement for long double sources (false of the pinned code, see the counterexamples below) -/
+def C03_cfloat_from_f80_full : Prop :=
+  ∀ (c : Cfg) (bits : Nat), c.valid = true → (c.nbits ≤ 64 ∨ 63 ≤ c.fbits) → bits < 2 ^ 79 →
+    satisfies c (C03_cfloat_expect (ieeeVal 15 63 bits)) (fromLD c ieeeF80_qnanmask ieeeF80_snanmask ieeeF80_hmask bits) = true
+
+theorem C03_fromLD_of_special (c : Cfg) (qm sm hm bits r : Nat) (h : ieeeSpecial c 15 63 qm sm bits = some r) :
+    fromLD c qm sm hm bits = r := by
+  unfold fromLD; simp only [h]
+
+/-- every long double NaN (exponent field all ones, non-zero 63-bit fraction: any payload, quiet or signalling, either
+    sign) gives a NaN encoding, in every configuration — also with the binary64 masks ieee754_parameter<long double> carries -/
+theorem C03_cfloat_from_f80_nan_any (c : Cfg) (hv : c.valid = true) (qm sm hm bits : Nat)
+    (he : (bits >>> 63) % 2 ^ 15 = 2 ^ 15 - 1) (hf : bits % 2 ^ 63 ≠ 0) :
+    satisfies c .nan (fromLD c qm sm hm bits) = true := by
+  have hq := qnan_facts c hv
+  have hs := snan_facts c hv
+  have hQ := sat_nan c hv _ hq.1 (isNan_of_isNanEnc c hv _ hq.2.1)
+  have hS := sat_nan c hv _ hs.1 (isNan_of_isNanEnc c hv _ hs.2.1)
+  have key : ∃ r, ieeeSpecial c 15 63 qm sm bits = some r ∧ (r = qnan c ∨ r = snan c) := by
+    unfold ieeeSpecial
+    simp only [he, if_true]
+    split_ifs
+    · exact ⟨_, rfl, Or.inr rfl⟩
+    · exact ⟨_, rfl, Or.inl rfl⟩
+    · exact ⟨_, rfl, Or.inl rfl⟩
+    · exact ⟨_, rfl, Or.inr rfl⟩
+  obtain ⟨r, hr, hcase⟩ := key
+  rw [C03_fromLD_of_special c qm sm hm bits r hr]
+  rcases hcase with h | h <;> rw [h] <;> assumption
+
+/-- long double sources: every normal long double whose exponent is a normal exponent of the target (two below the
+    all-ones exponent at most), every valid configuration of at most 64 bits with fewer than 63 fraction bits — the
+    instance ⟨15, 63⟩ of `C03_cfloat_from_ieee_normal_partial`, transferred to the long double transcription by
+    `fromLD_eq_fromIeee_normal` (whatever the hidden-bit mask is: it is only used in the target's subnormal range) -/
+theorem C03_cfloat_from_f80_normal_partial (c : Cfg) (hv : c.valid = true) (qm sm hm bits : Nat) (hfb : c.fbits < 63) (hn64 : c.nbits ≤ 64)
+    (hexp0 : (bits >>> 63) % 2 ^ 15 ≠ 0) (hexp1 : (bits >>> 63) % 2 ^ 15 ≠ 32767)
+    (hlo : c.minExpNormal ≤ (((bits >>> 63) % 2 ^ 15 : Nat) : Int) - 16383)
+    (hhi : (((bits >>> 63) % 2 ^ 15 : Nat) : Int) - 16383 + c.bias + 1 < c.emax) :
+    satisfies c (C03_cfloat_expect (ieeeVal 15 63 bits)) (fromLD c qm sm hm bits) = true := by
+  have hspec : ieeeSpecial c 15 63 qm sm bits = none := by
+    unfold ieeeSpecial; simp only [show (2 : Nat) ^ 15 - 1 = 32767 by norm_num, hexp1, if_false]
+  rw [fromLD_eq_fromIeee_normal c hv qm sm hm bits hspec hn64 hexp0 hfb (by simpa using hlo) (by simpa using hhi)]
+  refine C03_cfloat_from_ieee_normal_partial c hv 15 63 _ _ bits hfb ?_ hexp0 (by simpa using hexp1) (by simpa using hlo) (by simpa using hhi)
+  omega
+
+/-- non-vacuity: 1 + 2^-11 + 2^-63 (pattern 1fff8010000000000001: more than binary64's 53 bits) into half precision is
+    above the tie and rounds up; through double it would be the tie 1 + 2^-11 and stay at 3c00 -/
+example : let c : Cfg := { nbits := 16, es := 5, bt := 16, sub := true }
+    c.valid = true ∧ c.fbits < 63 ∧ c.nbits ≤ 64 ∧ (0x1fff8010000000000001 >>> 63) % 2 ^ 15 ≠ 0 ∧ (0x1fff8010000000000001 >>> 63) % 2 ^ 15 ≠ 32767 ∧
+    c.minExpNormal ≤ (((0x1fff8010000000000001 >>> 63) % 2 ^ 15 : Nat) : Int) - 16383 ∧
+    (((0x1fff8010000000000001 >>> 63) % 2 ^ 15 : Nat) : Int) - 16383 + c.bias + 1 < c.emax ∧
+    fromLD c ieeeF80_qnanmask ieeeF80_snanmask ieeeF80_hmask 0x1fff8010000000000001 = 0x3c01 ∧
+    fromLD c ieeeF80_qnanmask ieeeF80_snanmask ieeeF80_hmask 0x1fff8010000000000000 = 0x3c00 := by
+  decide +kernel
+
+/-- known finding cfloat.from_ld.hidden_mask: 5/1024 = 2.5·minpos of cfloat<8,4,sub> is a tie and must give 2; the
+    hidden-bit mask 0x8000'0000'0000'0001 sets bit 0, which reads as sticky: 3 -/
+theorem C03_cfloat_from_f80_hidden_mask_counterexample :
+    let c : Cfg := { nbits := 8, es := 4, bt := 8, sub := true }
+    fromLD c ieeeF80_qnanmask ieeeF80_snanmask ieeeF80_hmask 0x1ffba000000000000000 = 3 ∧
+    satisfies c (C03_cfloat_expect (ieeeVal 15 63 0x1ffba000000000000000)) 3 = false ∧
+    satisfies c (C03_cfloat_expect (ieeeVal 15 63 0x1ffba000000000000000)) 2 = true := by
+  decide +kernel
+
+/-- known finding cfloat.from_ld.shift64: 2^-10 = minpos/2 of cfloat<8,4,sub> (a tie: 0) shifts by 64 and gives minpos -/
+theorem C03_cfloat_from_f80_shift64_counterexample :
+    let c : Cfg := { nbits := 8, es := 4, bt := 8, sub := true }
+    fromLD c ieeeF80_qnanmask ieeeF80_snanmask ieeeF80_hmask 0x1ffa8000000000000000 = 1 ∧
+    satisfies c (C03_cfloat_expect (ieeeVal 15 63 0x1ffa8000000000000000)) 1 = false := by
+  decide +kernel
+
+theorem C03_cfloat_from_f80_full_false : ¬ C03_cfloat_from_f80_full := by
+  intro h
+  have := h { nbits := 8, es := 4, bt := 8, sub := true } 0x1ffba000000000000000 (by decide) (by decide) (by decide)
+  revert this
+  decide +kernel
+
